@@ -7,6 +7,10 @@ CHECKS = {
   text="Bounded symbolic model checking of Feature.get_sub_location_from_protein_coordinates / convert_protein_position_to_dna on genes with 1-3 exons and origin-spanning two-exon genes, either strand, symbolic exon boundaries (lengths not multiples of three), symbolic protein range: result has three bases per residue, the gene's strand, lies in the record, and for every position t the t-th base of the result in reading order is the (3s+t)-th coding base of the gene; of the TTA codon marker placement; and of codon_start handling in CDSFeature.from_biopython/to_biopython (reading frame starts codon_start-1 bases in; written location and qualifier are the originals).",
   note="'Extract and translate gives that stretch of the translation' is reduced to base-for-base equality of coding-order positions (Bio's extract concatenates parts in order, reverse-complementing on strand -1: trusted). Known finding C09-1 (TTA marker by start+offset) is reported as KNOWN-FINDING. Prepeptide leader/core/tail call the checked function with concrete string lengths and are not separately explored.",
   ref="3/C09"),
+ "C12": dict(
+  text="Bounded symbolic model checking of write_to_genbank / _build_base_record / _build_record_from_cross_origin / _adjust_features / _adjust_protocluster / _adjust_motif on a region (simple or origin-spanning) with a protocluster, candidate cluster, optional subregion, a gene (simple or origin-spanning on either strand) and a prepeptide-style motif, with symbolic coordinates and record length and - the point of doing it symbolically - symbolic record-wide numbers of the areas (any region of any record): the extract has the region's length, contains every feature shifted so that it covers the same bases (for all x), all numbers and cross references are renumbered from 1 consistently, core/leader locations are shifted with the region, and the full record's locations and qualifiers are unchanged afterwards.",
+  note="Object level only: SeqRecord slicing/concatenation is modelled on the feature table (FakeSeqRecord, following Biopython's documented behaviour), seqio.write is captured at call time; GenBank text and re-parsing are outside the claim. One candidate cluster per region.",
+  ref="3/C12"),
  "C13": dict(
   text="Bounded symbolic model checking of refine_hmmscan_results (both modes) with its helpers, of filter_results / filter_result_multiple and of hmmer.remove_overlapping on k <= 3 (quick) / 4 (thorough) hits with symbolic coordinates (ints) and scores / e-values (reals), every profile assignment over 2-3 profiles, every input order and every set-iteration numbering: results ordered by position, identical for every order, kept hits are inputs or spanning same-profile merges with best score, no two kept hits overlap beyond the margin, dropped hits have a better-ranked overlapping kept hit, one survivor per overlap group / profile.",
   note="Profile lengths 15/35 and cutoffs 20/30 are concrete; set iteration order is modelled as harness-chosen (every order supplied); doubles that are nearest to simple fractions are read as those fractions (DESIGN 1.4). Known finding C13-1 (greedy comparison against the last kept hit only) is reported as KNOWN-FINDING, anything outside its region is a violation.",
